@@ -15,7 +15,6 @@ import (
 	"github.com/transparency-dev/formats/log"
 	f_note "github.com/transparency-dev/formats/note"
 	"github.com/transparency-dev/witness/internal/feeder"
-	"github.com/transparency-dev/witness/omniwitness"
 	"github.com/transparency-dev/witness/verifharness/internal/ref"
 	"github.com/transparency-dev/witness/verifharness/internal/world"
 )
@@ -379,7 +378,7 @@ func execFeed(base *world.World, s feedScen, tag string, seed int64) ([]any, err
 		auth = []string{"badsig", "badtext", "unknownkey", "wrongorigin"}[w.Rng.Intn(4)]
 	}
 	sub := w.Concretise("l1", world.Req{Auth: auth, B: s.Sub.B, N: s.Sub.N, Pf: world.Pf{K: "empty"}}, nil)
-	var inner feeder.Witness = omniwitness.VerifWitnessAdapter(wit)
+	var inner feeder.Witness = witnessAdapterOf(wit)
 	if feedUseStub {
 		rw := &refWitness{w: w, l: l}
 		if b, err := wit.GetCheckpoint(l.ID); err == nil {
